@@ -410,9 +410,9 @@ class Item:
         self.functions.update(names)
 
     # ---- exploring
-    def explore(self, fn, maxpaths=20000):
+    def explore(self, fn, maxpaths=20000, on_path=None):
         before = core.STATS.solver_s
-        paths = core.explore(fn, base=self.assumptions, maxpaths=maxpaths,
+        paths = core.explore(fn, base=self.assumptions, maxpaths=maxpaths, on_path=on_path,
                              base_key=(self._uid, len(self.assumptions)) if getattr(self, "share_base", False) else None)
         self.solver_s += core.STATS.solver_s - before
         self.paths += len(paths)
